@@ -319,7 +319,7 @@ class Check:
             source_translation=dict(file="coq/Gen/Source.v", translator="harness/translate/pysrc.py",
                                     functions=[sp["name"] for sp in SRC_SPECS],
                                     untranslatable=src_errors,
-                                    equivalence_proofs="coq/Proofs/GenEq.v (generated definition = model, all inputs)"),
+                                    equivalence_proofs="coq/Proofs/GenEq.v, GenEq2.v (recurrence), GenEq3.v (cache), GenEq4.v (memory), GenEq5.v (Difference._sweep): generated definition = model, for all inputs"),
             explanation=f"theorems of Props/{self.prop}.v re-checked by coqc on this run; the Gallina model is tied to "
                         f"/repo by evaluating it (vm_compute) on the same cases the implementation ran; the oracle is the "
                         f"executable spec applied to the implementation's output")
